@@ -176,6 +176,6 @@ pub fn exec_pure(line: &str) -> String {
         ["enc", m] => exec_enc(m),
         ["chunks", h, cuts] => exec_chunks(h, cuts),
         ["big", n] => exec_big(n),
-        _ => "bad-op".into(),
+        _ => crate::cidexec::exec_cid(&toks).unwrap_or_else(|| "bad-op".into()),
     }
 }
